@@ -115,6 +115,7 @@ def build_jobs(t, sd):
             fam = [x for x in fam if not x[1].get("subs")]
         elif v >= 5:
             fam += gen_slots.byref_forward_family("A", v)
+            fam += gen_slots.index_only_family("A", v)
         for (name, rec, needed, dup) in fam:
             opts = [None]
             if (thorough or "n2:" in name or "n10:" in name or "skip" in name) and v >= 8:
